@@ -52,6 +52,11 @@ CONFIGS = {
     "prio":   (2, 2, False, [[add(2), add(2), prio(1, 5), incr(1, 2), incr(2, 2), call("wait")]], 3),
     "priolazy": (2, 2, False, [[add(2), add(2), incr(1, 2), incr(2, 2), call("wait")], [prio(1, 5, True)]], 3),
     "prio3":  (3, 3, False, [[add(1), add(1), add(1), incr(1), incr(2), incr(3), call("wait")], [prio(1, 7, True), prio(3, 0)]], 2),
+    "manual": (2, 2, False, [[add(1), add(2), call("refresh"), incr(1), call("refresh"), incr(2, 2), call("refresh"), call("wait")], [call("refresh"), call("refresh")]], 0, "manual"),
+    "none":   (2, 2, False, [[add(1), add(2), incr(1), incr(2, 2), call("wait")], [abort(2, False), call("write")]], 0, "none"),
+    "manualsync": (2, 2, False, [[add(1, True), add(1, True), call("refresh"), incr(1), incr(2), call("refresh"), call("refresh"), call("wait")]], 0, "manual"),
+    "latequeue": (2, 2, False, [[add(1), incr(1), add(1, after=1), incr(2), call("wait")]], 4),   # finding F2b (livelock: liveness only)
+    "twosucc": (3, 3, False, [[add(1), add(1, after=1), add(1, after=1), incr(1), incr(2), incr(3), call("wait")]], 3),   # finding F2a
     "fault1": (2, 2, False, [[add(2, fail=2), add(1), incr(2), incr(1), call("wait")]], 3),           # a filler error, no synced decorators
     "fault2": (2, 2, False, [[add(2), add(1, fail=1), incr(1), call("wait")], [call("write")]], 3),
     "faultsync": (3, 3, False, [[add(2, True), add(2, True), add(2, fail=1), call("wait")]], 2),    # finding F5
@@ -73,7 +78,8 @@ def tla_op(o):
 
 
 def write_model(wd, name, extra_cfg="", spec="Spec", invariants="NoPanic NoHang NoDupInFrame TextAtMostOnce TextWritten Quiescent ErrorReportedOnce NoRenderAfterError SortedFrames", sim=False):
-    nb, q, pop, progs, ticks = CONFIGS[name]
+    nb, q, pop, progs, ticks = CONFIGS[name][:5]
+    refresh = CONFIGS[name][5] if len(CONFIGS[name]) > 5 else "auto"
     if sim:
         ticks = 12   # random walks waste ticks; the bound only has to keep a walk finite
     prog = "<< " + ", ".join("<< " + ", ".join(tla_op(o) for o in p) + " >>" for p in progs) + " >>"
@@ -87,9 +93,9 @@ def write_model(wd, name, extra_cfg="", spec="Spec", invariants="NoPanic NoHang 
     base = "MPBSim" if sim else "MPBCore"
     mod = "MCgen_%s" % name
     open(os.path.join(wd, mod + ".tla"), "w").write(
-        "---- MODULE %s ----\nEXTENDS %s\nP == %s\nF == %s\n====\n" % (mod, base, prog, fault))
-    cfg = ("SPECIFICATION %s\nCONSTANTS\n  NB = %d\n  Q = %d\n  Pop = %s\n  Prog <- P\n  Fault <- F\n  MaxTicks = %d\n%s"
-           "CHECK_DEADLOCK FALSE\n" % (spec, nb, q, "TRUE" if pop else "FALSE", ticks, extra_cfg))
+        "---- MODULE %s ----\nEXTENDS %s\nP == %s\nF == %s\nMT == %d\n====\n" % (mod, base, prog, fault, ticks))
+    cfg = ("SPECIFICATION %s\nCONSTANTS\n  NB = %d\n  Q = %d\n  Pop = %s\n  Prog <- P\n  Fault <- F\n  Refresh = \"%s\"\n  MaxTicks <- MT\n%s"
+           "CHECK_DEADLOCK FALSE\n" % (spec, nb, q, "TRUE" if pop else "FALSE", refresh, extra_cfg))
     if invariants:
         cfg += "INVARIANTS " + invariants + "\n"
     open(os.path.join(wd, mod + ".cfg"), "w").write(cfg)
@@ -101,7 +107,8 @@ def write_model(wd, name, extra_cfg="", spec="Spec", invariants="NoPanic NoHang 
 
 def scenario(name, sid, steps=None, mode="replay", seed=1, stats=True):
     """The same configuration as a harness scenario (bars b1..bn, clients 0-based)."""
-    nb, q, pop, progs, ticks = CONFIGS[name]
+    nb, q, pop, progs, ticks = CONFIGS[name][:5]
+    refresh = CONFIGS[name][5] if len(CONFIGS[name]) > 5 else "auto"
     clients, nadd = [], 0
     for p in progs:
         ops = []
@@ -132,7 +139,7 @@ def scenario(name, sid, steps=None, mode="replay", seed=1, stats=True):
                 ops.append({"op": o["op"]})
         clients.append(ops)
     return {"id": sid, "family": "core:" + name,
-            "cfg": {"q": q, "refresh": "auto", "pop": pop, "notifier": False, "width": 120, "delay": False, "outfault": 0, "ctx": False},
+            "cfg": {"q": q, "refresh": refresh, "pop": pop, "notifier": False, "width": 120, "delay": False, "outfault": 0, "ctx": False},
             "clients": clients,
             "sched": {"mode": mode, "seed": seed, "tickw": 1, "steps": steps or [], "budget": 0, "bias": []}, "stats": stats}
 
